@@ -198,6 +198,36 @@ def entry_points(pa):
     E["compute_gamma_precision"] = (gamma(lambda: None, precision_level=0.5), True, False, False)
     E["compute_gamma_ground_truth"] = (gamma(lambda: None, ground_truth_annotators=None), True, False, False)
 
+    # ---- calls that raise (and are caught by the user) must leave their inputs alone as well
+    def raising(call, exc_types):
+        def fn(c, d):
+            np.random.seed(9)
+            try:
+                with serial_pool():
+                    call(c, d)
+            except exc_types:
+                pass
+            return []
+        return fn
+
+    E["raises_soft_and_fast"] = (raising(lambda c, d: c.compute_gamma(d, n_samples=2, soft=True, fast=True),
+                                         (NotImplementedError,)), True, False, False)
+    E["raises_bad_precision"] = (raising(lambda c, d: c.compute_gamma(d, n_samples=2, precision_level=2.0),
+                                         (AssertionError, ValueError)), True, False, False)
+    E["raises_bad_ground_truth"] = (raising(lambda c, d: c.compute_gamma(d, n_samples=2, ground_truth_annotators=["nobody"]),
+                                            (AssertionError, ValueError, KeyError)), True, False, False)
+    E["raises_unknown_label_for_dissim"] = (raising(
+        lambda c, d: c.get_best_alignment(pa.CombinedCategoricalDissimilarity(
+            cat_dissim=pa.LevenshteinCategoricalDissimilarity(["only", "these"]))), (AssertionError, ValueError, KeyError)),
+        True, False, False)
+    E["raises_remove_absent_unit"] = (raising(lambda c, d: c.remove(c.annotators[0], to_unit((990, 991, "absent"))),
+                                              (KeyError, ValueError)), False, False, False)
+    E["raises_zero_length_add"] = (raising(lambda c, d: c.add(c.annotators[0], __import__("pyannote.core").core.Segment(3, 3), "x"),
+                                           (ValueError,)), False, False, False)
+    E["raises_invalid_alignment"] = (raising(
+        lambda c, d: pa.Alignment(c.get_best_alignment(d).unitary_alignments[:-1] or [], continuum=c, check_validity=True),
+        (Exception,)), True, False, False)
+
     @reg("measure_best_window_size", window=True)
     def _(c, d):
         c.measure_best_window_size(d)
